@@ -1,3 +1,249 @@
+import Driver.Util
 import Driver.Loop
-/- placeholder: the C16 view has no executable model yet -/
-def main : IO Unit := Drv.runLoop fun _ => .atom "bad-op"
+import PMV.Model.Algebra
+/- line-protocol handlers for the C16 view (exact `Rat` instance of Model/Algebra.lean).
+
+   operand   := (shape numer denom (v …) mask)       v = "n" | "n/d", flat row-major over
+                                                       shape+numer+denom; mask = T | F | (bits)
+   answer    := (shape numer denom (v …) (bits))     masked elements print "_" for every component
+   mode      := x (values printed exactly) | q (values printed as floor(v*2^16 + 1/2))
+-/
+namespace Drv.C16
+open PMV PMV.Algebra Drv
+
+def parseRat (s : String) : Option Rat :=
+  match s.splitOn "/" with
+  | [n] => n.toInt?.map fun (i : Int) => (i : Rat)
+  | [n, d] => do
+    let n ← n.toInt?
+    let d ← d.toNat?
+    if d = 0 then none else some (mkRat n d)
+  | _ => none
+
+def Sx.rats? (x : Sx) : Option (List Rat) := do
+  let l ← x.toList?
+  l.mapM fun a => match a with
+    | .atom s => parseRat s
+    | _ => none
+
+def ratSx (mode : String) (r : Rat) : Sx :=
+  if mode == "q" then .atom (toString (r * 65536 + (1 : Rat) / 2).floor)
+  else if r.den = 1 then .atom (toString r.num) else .atom s!"{r.num}/{r.den}"
+
+def parseOpd : Sx → Option (Opd Rat)
+  | .list [sh, nu, de, vs, m] => do
+    let shape ← sh.nats?
+    let numer ← nu.nats?
+    let denom ← de.nats?
+    let vals ← Sx.rats? vs
+    let mask ← parseMask m
+    let data := vals.toArray
+    let full := shape ++ numer ++ denom
+    if data.size ≠ size full then none else
+    some ⟨shape, numer, denom, fun i j => data[ravel full (i ++ j)]!, fun i => mask.at shape i⟩
+  | _ => none
+
+def outOpd (mode : String) (r : Opd Rat) : Sx :=
+  let items := indices (r.numer ++ r.denom)
+  let vals := (indices r.shape).flatMap fun i =>
+    if r.mask i then items.map fun _ => Sx.atom "_" else items.map fun j => ratSx mode (r.val i j)
+  .list [Sx.ofNats r.shape, Sx.ofNats r.numer, Sx.ofNats r.denom, .list vals,
+         Sx.ofBools ((indices r.shape).map r.mask)]
+
+def outExc (mode : String) : Except Err (Opd Rat) → Sx
+  | .ok r => outOpd mode r
+  | .error _ => .atom "ValueError"
+
+/-- a vector element of an object with numer [n] -/
+def vecE (a : Opd Rat) (i : Index) : VecE Rat := ⟨a.numer.headD 0, fun t => a.val i [t], a.mask i⟩
+
+def q4 (a : Opd Rat) (i : Index) : Q4 Rat := ⟨a.val i [0], a.val i [1], a.val i [2], a.val i [3]⟩
+
+def ofQ4 (shape : Shape) (f : Index → Q4 Rat) (m : Index → Bool) : Opd Rat :=
+  ⟨shape, [4], [], fun i j => (f i).get (j.headD 0), m⟩
+
+def ofMat (shape : Shape) (r c : Nat) (f : Index → Mat Rat) (m : Index → Bool) : Opd Rat :=
+  ⟨shape, [r, c], [], fun i j => f i (j.headD 0) (j.getD 1 0), m⟩
+
+def matOf (a : Opd Rat) (i : Index) : Mat Rat := fun r c => a.val i [r, c]
+
+def ofVec (shape : Shape) (n : Nat) (f : Index → VecE Rat) : Opd Rat :=
+  ⟨shape, [n], [], fun i j => (f i).get (j.headD 0), fun i => (f i).m⟩
+
+/-- exact determinant (Laplace expansion along the first row) and adjugate inverse: the stand-in for
+    LAPACK in the driver; it satisfies the contract `det m ≠ 0 → m * inv m = 1` exactly -/
+def minor (m : Mat Rat) (r c : Nat) : Mat Rat :=
+  fun r' c' => m (if r' < r then r' else r' + 1) (if c' < c then c' else c' + 1)
+
+def detN : Nat → Mat Rat → Rat
+  | 0, _ => 1
+  | n + 1, m => sumRange (n + 1) fun c =>
+      (if c % 2 = 0 then (1 : Rat) else -1) * m 0 c * detN n (minor m 0 c)
+
+def invN (n : Nat) (m : Mat Rat) : Mat Rat :=
+  let d := detN n m
+  fun r c => (if (r + c) % 2 = 0 then (1 : Rat) else -1) * detN (n - 1) (minor m c r) / d
+
+def lapack : Lapack Rat := ⟨detN, invN⟩
+
+/-- `np.where(q0 < 0, -1, 1)` -/
+def sgn (r : Rat) : Rat := if r < 0 then -1 else 1
+
+/-- three angle operands (numer [2] = (sin, cos)) broadcast together -/
+def bcast3 (a b c : Shape) : Option Shape := do
+  let ab ← bcast a b
+  bcast ab c
+
+def scOf (a : Opd Rat) (out_i : Index) : SC Rat :=
+  let i := bidx a.shape out_i
+  ⟨a.val i [0], a.val i [1]⟩
+
+def zeroMat : Mat Rat := fun _ _ => 0
+
+def handle : List Sx → Sx
+  | [.atom mode, .atom "dot", a, b, ax1, ax2] =>
+    match parseOpd a, parseOpd b, ax1.toInt?, ax2.toInt? with
+    | some a, some b, some ax1, some ax2 => outExc mode (lift2 (fun x y => dotItem x y ax1 ax2) a b)
+    | _, _, _, _ => err "operand"
+  | [.atom mode, .atom "cross", a, b, ax1, ax2] =>
+    match parseOpd a, parseOpd b, ax1.toInt?, ax2.toInt? with
+    | some a, some b, some ax1, some ax2 => outExc mode (lift2 (fun x y => crossItem x y ax1 ax2) a b)
+    | _, _, _, _ => err "operand"
+  | [.atom mode, .atom "outer", a, b] =>
+    match parseOpd a, parseOpd b with
+    | some a, some b => outExc mode (lift2 outerItem a b)
+    | _, _ => err "operand"
+  | [.atom mode, .atom "emul", a, b] =>
+    match parseOpd a, parseOpd b with
+    | some a, some b => outExc mode (lift2 elementMulItem a b)
+    | _, _ => err "operand"
+  | [.atom mode, .atom "transpose", a, ax1, ax2] =>
+    match parseOpd a, ax1.toInt?, ax2.toInt? with
+    | some a, some ax1, some ax2 => outExc mode (lift1 (fun x => transposeItem x ax1 ax2) a)
+    | _, _, _ => err "operand"
+  | [.atom mode, .atom "normsq", a, ax] =>
+    match parseOpd a, ax.toInt? with
+    | some a, some ax => outExc mode (lift1 (fun x => normSqItem x ax) a)
+    | _, _ => err "operand"
+  | [.atom mode, .atom "ediv", a, b] =>
+    match parseOpd a, parseOpd b with
+    | some a, some b =>
+      match bcast a.shape b.shape with
+      | some out =>
+        if a.numer ≠ b.numer then .atom "ValueError" else
+        outOpd mode (ofVec out (a.numer.headD 0) fun i =>
+          elementDiv (vecE a (bidx a.shape i)) (vecE b (bidx b.shape i)))
+      | none => .atom "ValueError"
+    | _, _ => err "operand"
+  | [.atom mode, .atom "qmul", a, b] =>
+    match parseOpd a, parseOpd b with
+    | some a, some b =>
+      match bcast a.shape b.shape with
+      | some out =>
+        outOpd mode (ofQ4 out (fun i => qMul (q4 a (bidx a.shape i)) (q4 b (bidx b.shape i)))
+          fun i => a.mask (bidx a.shape i) || b.mask (bidx b.shape i))
+      | none => .atom "ValueError"
+    | _, _ => err "operand"
+  | [.atom mode, .atom "qconj", a] =>
+    match parseOpd a with
+    | some a => outOpd mode (ofQ4 a.shape (fun i => qConj (q4 a i)) a.mask)
+    | none => err "operand"
+  | [.atom mode, .atom "qrecip", a] =>
+    match parseOpd a with
+    | some a => outOpd mode (ofQ4 a.shape (fun i => (qRecip (q4 a i) (a.mask i)).1)
+                  fun i => (qRecip (q4 a i) (a.mask i)).2)
+    | none => err "operand"
+  | [.atom mode, .atom "qtomat", a, sqrt2, pnorms] =>
+    -- pnorms: one value per leading element (row-major)
+    match parseOpd a, Sx.rats? (.list [sqrt2]), Sx.rats? pnorms with
+    | some a, some [sqrt2], some pn =>
+      let pn := pn.toArray
+      outOpd mode (ofMat a.shape 3 3
+        (fun i => (qToMatrix3 sqrt2 pn[ravel a.shape i]! (q4 a i) (a.mask i) zeroMat).1)
+        fun i => (qToMatrix3 sqrt2 pn[ravel a.shape i]! (q4 a i) (a.mask i) zeroMat).2)
+    | _, _, _ => err "operand"
+  | [.atom mode, .atom "fromparts", s, v] =>
+    match parseOpd s, parseOpd v with
+    | some s, some v =>
+      match bcast s.shape v.shape with
+      | some out =>
+        outOpd mode (ofQ4 out (fun i => fromParts (s.val (bidx s.shape i) []) fun t => v.val (bidx v.shape i) [t])
+          fun i => s.mask (bidx s.shape i) || v.mask (bidx v.shape i))
+      | none => .atom "ValueError"
+    | _, _ => err "operand"
+  | [.atom mode, .atom "toparts", a] =>
+    match parseOpd a with
+    | some a =>
+      let sc : Opd Rat := ⟨a.shape, [], [], fun i _ => (toParts (q4 a i)).1, a.mask⟩
+      let ve : Opd Rat := ⟨a.shape, [3], [], fun i j => (toParts (q4 a i)).2 (j.headD 0), a.mask⟩
+      .list [outOpd mode sc, outOpd mode ve]
+    | none => err "operand"
+  | [.atom mode, .atom "unit", v, norms] =>
+    match parseOpd v, Sx.rats? norms with
+    | some v, some ns =>
+      let ns := ns.toArray
+      outOpd mode (ofVec v.shape (v.numer.headD 0) fun i => unit (vecE v i) ns[ravel v.shape i]!)
+    | _, _ => err "operand"
+  | [.atom mode, .atom which, v, a, norms] =>
+    -- perp / proj: norms = norm of `a` per element of a (row-major over a.shape)
+    match parseOpd v, parseOpd a, Sx.rats? norms with
+    | some v, some a, some ns =>
+      let ns := ns.toArray
+      match bcast v.shape a.shape with
+      | some out =>
+        if v.numer ≠ a.numer then .atom "ValueError" else
+        let f := fun (i : Index) =>
+          let ia := bidx a.shape i
+          let nrm := ns[ravel a.shape ia]!
+          if which == "perp" then perp (vecE v (bidx v.shape i)) (vecE a ia) nrm
+          else proj (vecE v (bidx v.shape i)) (vecE a ia) nrm
+        if which == "perp" || which == "proj" then outOpd mode (ofVec out (v.numer.headD 0) f)
+        else err "c16-op"
+      | none => .atom "ValueError"
+    | _, _, _ => err "operand"
+  | [.atom mode, .atom "rot", axis, ang] =>
+    -- ang: numer [2] = (sin, cos) of the angle; axis 0|1|2 as passed to axis_rotation (or -1 … any int ≥ 0)
+    match axis.toNat?, parseOpd ang with
+    | some axis, some ang =>
+      outOpd mode (ofMat ang.shape 3 3 (fun i => axisRot axis (ang.val i [0]) (ang.val i [1])) ang.mask)
+    | _, _ => err "operand"
+  | [.atom mode, .atom "euler", .atom axes, ai, aj, ak] =>
+    match lookupAxes axes, parseOpd ai, parseOpd aj, parseOpd ak with
+    | some cv, some ai, some aj, some ak =>
+      match bcast3 ai.shape aj.shape ak.shape with
+      | some out =>
+        outOpd mode (ofMat out 3 3 (fun i => fromEuler cv (scOf ai i) (scOf aj i) (scOf ak i) zeroMat)
+          fun i => ai.mask (bidx ai.shape i) || aj.mask (bidx aj.shape i) || ak.mask (bidx ak.shape i))
+      | none => .atom "ValueError"
+    | none, _, _, _ => .atom "Other:KeyError"
+    | _, _, _, _ => err "operand"
+  | [.atom mode, .atom "qeuler", .atom axes, ai, aj, ak] =>
+    match lookupAxes axes, parseOpd ai, parseOpd aj, parseOpd ak with
+    | some cv, some ai, some aj, some ak =>
+      match bcast3 ai.shape aj.shape ak.shape with
+      | some out =>
+        outOpd mode (ofQ4 out (fun i => qFromEuler sgn cv (scOf ai i) (scOf aj i) (scOf ak i) ⟨0, 0, 0, 0⟩)
+          fun i => ai.mask (bidx ai.shape i) || aj.mask (bidx aj.shape i) || ak.mask (bidx ak.shape i))
+      | none => .atom "ValueError"
+    | none, _, _, _ => .atom "Other:KeyError"
+    | _, _, _, _ => err "operand"
+  | [.atom mode, .atom "inverse", a, nz] =>
+    match parseOpd a, nz.toBool? with
+    | some a, some nz =>
+      match a.numer with
+      | [n, n'] =>
+        if n ≠ n' ∨ a.denom ≠ [] then .atom "ValueError" else
+        let f := fun (i : Index) =>
+          if nz then inverseElemNozeros lapack n (matOf a i) (a.mask i)
+          else inverseElem lapack n (matOf a i) (a.mask i)
+        outOpd mode (ofMat a.shape n n (fun i => (f i).1) fun i => (f i).2)
+      | _ => err "operand"
+    | _, _ => err "operand"
+  | _ => err "c16-op"
+
+end Drv.C16
+
+def main : IO Unit := Drv.runLoop fun x =>
+  match x with
+  | .list (.atom "c16" :: rest) => Drv.C16.handle rest
+  | _ => .atom "bad-op"
